@@ -108,6 +108,91 @@ pub fn forge_zero(splice: bool, n_queries: u64, pow_bits: u8) -> Result<StarkPro
     })
 }
 
+pub fn forge_zero_solve(extra_len: usize, free_off: usize, n_queries: u64, pow_bits: u8) -> Result<StarkProof, String> {
+    let mut pi = swiftness_air::fixtures::public_input::get();
+    let n = pi.main_page.0.len();
+    pi.main_page.0[n - 1].value = Felt::from(0xdeadbeefu64); // FALSE statement: a different program output
+    let mut cfg = swiftness_stark::fixtures::config::get();
+    cfg.proof_of_work.n_bits = pow_bits;
+    cfg.n_queries = Felt::from(n_queries);
+    let h = to_u64(&(cfg.log_trace_domain_size + cfg.log_n_cosets)) as usize;
+    let m = <Layout as LayoutTrait>::MASK_SIZE;
+    let (c1, c2) = (Layout::NUM_COLUMNS_FIRST, Layout::NUM_COLUMNS_SECOND);
+    let (u1, u2, u3) = (uniform_nodes(c1, h), uniform_nodes(c2, h), uniform_nodes(2, h));
+    let steps: Vec<usize> = cfg.fri.fri_step_sizes.iter().map(|s| to_u64(s) as usize).collect();
+    let mut fri_u = vec![]; let mut hh = h;
+    for i in 1..steps.len() { hh -= steps[i]; fri_u.push((uniform_nodes(1 << steps[i], hh), hh, steps[i])); }
+    let last_len = 1usize << to_u64(&cfg.fri.log_last_layer_degree_bound);
+    let build = |t: Felt, nonce: u64| -> StarkUnsentCommitment {
+        let mut oods = vec![Felt::ZERO; m + 2 + extra_len];
+        oods[m + 2 + free_off] = t;
+        StarkUnsentCommitment {
+            traces: swiftness_air::trace::UnsentCommitment { original: u1[0], interaction: u2[0] },
+            composition: u3[0], oods_values: oods,
+            fri: FriUnsent { inner_layers: fri_u.iter().map(|x| x.0[0]).collect(), last_layer_coefficients: vec![Felt::ZERO; last_len] },
+            proof_of_work: PowUnsent { nonce },
+        }
+    };
+    let domains = StarkDomains::new(cfg.log_trace_domain_size, cfg.log_n_cosets);
+    let digest0 = pi.get_hash(cfg.n_verifier_friendly_commitment_layers);
+    // black-box affine solve: the OODS check compares two values that are affine in the free entry (everything it depends on is drawn
+    // BEFORE oods_values is absorbed); two probes t = 0, 1 determine the t that makes them equal
+    let probe = |t: Felt| -> Result<Option<(Felt, Felt)>, String> {
+        let mut tr = Transcript::new(digest0);
+        match swiftness_stark::commit::stark_commit::<Layout>(&mut tr, &pi, &build(t, 0), &cfg, &domains) {
+            Ok(_) => Ok(None),
+            Err(e) => {
+                let e = format!("{:?}", e);
+                let grab = |key: &str| -> Option<Felt> {
+                    let x = e.split(key).nth(1)?; let x: String = x.chars().take_while(|ch| ch.is_ascii_hexdigit() || *ch == 'x').collect();
+                    Felt::from_hex(&x).ok() };
+                match (grab("expected: "), grab("actual: ")) {
+                    (Some(a), Some(b)) => Ok(Some((a, b))),
+                    _ => Err(format!("forger stopped early: {}", e.chars().take(120).collect::<String>())) } } } };
+    let c = match (probe(Felt::ZERO)?, probe(Felt::ONE)?) {
+        (None, _) => Felt::ZERO,
+        (_, None) => Felt::ONE,
+        (Some((e0, a0)), Some((e1, a1))) => {
+            let (g0, g1) = (a0 - e0, a1 - e1);
+            if g0 == g1 { return Err("forger stopped early: the free entry is not read by the OODS check".into()); }
+            (Felt::ZERO - g0) * (g1 - g0).inverse().unwrap() } };
+    // replay the transcript to mine the nonce
+    let uc = build(c, 0);
+    let mut t = Transcript::new(digest0);
+    t.read_felt_from_prover(&uc.traces.original); for _ in 0..6 { t.random_felt_to_prover(); }
+    t.read_felt_from_prover(&uc.traces.interaction); t.random_felt_to_prover();
+    t.read_felt_from_prover(&uc.composition); t.random_felt_to_prover();
+    t.read_felt_vector_from_prover(&uc.oods_values); t.random_felt_to_prover();
+    for r in &uc.fri.inner_layers { t.read_felt_from_prover(r); t.random_felt_to_prover(); }
+    t.read_felt_vector_from_prover(&uc.fri.last_layer_coefficients);
+    let d = t.digest().to_bytes_be();
+    let mut nonce = 0u64; while verify_pow(d, pow_bits, nonce).is_err() { nonce += 1; }
+    t.read_uint64_from_prover(nonce);
+    let queries = generate_queries(&mut t, cfg.n_queries, domains.eval_domain_size);
+    let mut q: Vec<u64> = queries.iter().map(to_u64).collect(); q.dedup();
+    let nq = q.len();
+    let tw = |u: &Vec<Felt>, hgt: usize, idx: &[u64]| TW { vector: VW { authentications: uniform_auth(u, hgt, idx) } };
+    let mut layers = vec![]; let mut cur = q.clone();
+    for (u, hgt, st) in &fri_u {
+        let cs = 1u64 << st;
+        let mut cosets: Vec<u64> = cur.iter().map(|x| x / cs).collect(); cosets.dedup();
+        let n_leaves = cosets.len() * cs as usize - cur.len();
+        layers.push(LayerWitness { leaves: vec![Felt::ZERO; n_leaves], table_witness: tw(u, *hgt, &cosets) });
+        cur = cosets;
+    }
+    Ok(StarkProof {
+        config: cfg, public_input: pi, unsent_commitment: build(c, nonce),
+        witness: StarkWitness {
+            traces_decommitment: swiftness_air::trace::Decommitment { original: TD { values: vec![Felt::ZERO; nq * c1] }, interaction: TD { values: vec![Felt::ZERO; nq * c2] } },
+            traces_witness: swiftness_air::trace::Witness { original: tw(&u1, h, &q), interaction: tw(&u2, h, &q) },
+            composition_decommitment: TD { values: vec![Felt::ZERO; nq * 2] },
+            composition_witness: tw(&u3, h, &q),
+            fri_witness: FriWitness { layers },
+        },
+    })
+}
+
+
 // ---------------------------------------------------------------------------------------------------------------------------------
 // `forge_vacuous <steps, e.g. 4,4,3> <log_n_cosets> <n_queries> <pow_bits>` -> proof tokens.
 // A prover with NO trace that would win if the verifier ever ran FRI with a degree bound equal to the size of the last-layer domain:
@@ -342,6 +427,8 @@ fn parse_clone_pi(p: &swiftness_air::public_memory::PublicInput) -> swiftness_ai
 pub fn run(op: &str, a: &[&str]) -> Option<Out> {
     Some(match op {
         "forge_zero" => match forge_zero(a[0] == "1", u64h(a[1]), u64h(a[2]) as u8) {
+            Ok(p) => Out::Ok(crate::ops_proof::fmt_proof(&p)), Err(e) => Out::Err(e) },
+        "forge_zero_solve" => match forge_zero_solve(u64h(a[0]) as usize, u64h(a[1]) as usize, u64h(a[2]), u64h(a[3]) as u8) {
             Ok(p) => Out::Ok(crate::ops_proof::fmt_proof(&p)), Err(e) => Out::Err(e) },
         "forge_zero_from" => {
             let base = crate::ops_proof::parse_proof(&a[1..]);
